@@ -108,6 +108,9 @@ SPEC: dict[str, list[Unit]] = {
 def _load_plugins():
     """harness/srcspec/Cxx.py: UNITS (appended to SPEC[Cxx]) and an optional search(ctx, lits)"""
     import importlib
+    import os
+    if os.environ.get("VERIF_NO_SRCPLUGINS") == "1":      # development switch: run a check without the plug-ins being written
+        return
     d = pathlib.Path(__file__).resolve().parent / "srcspec"
     for f in sorted(d.glob("C[0-9][0-9].py")):
         m = importlib.import_module(f"harness.srcspec.{f.stem}")
